@@ -150,6 +150,7 @@ type loopTr struct {
 	globals map[string]lty // package-level variables emitted as Lean definitions
 	elem    bool           // element mode (elements.go)
 	msm     bool           // bucket-method mode (msmchunk.go)
+	u64     map[string]bool // recode mode: integer variables declared `uint64` (their shifts wrap at 64 bits)
 	curIV   string         // innermost loop variable
 	recv    func(iv string) string // translation of a channel receive inside the loop over `iv`
 	recvTy  lty
@@ -365,7 +366,16 @@ func (t *loopTr) intExpr(e ast.Expr) string {
 			return "(Loop.bandNot " + t.intExpr(x.X) + " " + t.intExpr(x.Y) + ")"
 		}
 		if x.Op == token.SHL {
+			if id, ok := x.X.(*ast.Ident); ok && t.u64 != nil && t.u64[id.Name] {
+				return "(Loop.shl64 " + t.intExpr(x.X) + " " + t.intExpr(x.Y) + ")"
+			}
 			return "(Loop.shl " + t.intExpr(x.X) + " " + t.intExpr(x.Y) + ")"
+		}
+		if x.Op == token.SHR {
+			return "(Loop.shr " + t.intExpr(x.X) + " " + t.intExpr(x.Y) + ")"
+		}
+		if x.Op == token.OR {
+			return "(Loop.bor " + t.intExpr(x.X) + " " + t.intExpr(x.Y) + ")"
 		}
 	case *ast.CallExpr:
 		switch exprStr(x.Fun) {
@@ -892,6 +902,9 @@ func (t *loopTr) block(ind string, stmts []ast.Stmt, k string, cont string) {
 						die("loops: %s: unsupported declaration %s", t.cur.name, exprStr(vs.Type))
 					}
 					t.vars[n.Name] = ty
+					if t.u64 != nil && exprStr(vs.Type) == "uint64" {
+						t.u64[n.Name] = true
+					}
 					zero := ty.zero()
 					if at, ok := vs.Type.(*ast.ArrayType); ok && at.Len != nil {
 						// the zero value of an array has its full length
@@ -916,6 +929,15 @@ func (t *loopTr) block(ind string, stmts []ast.Stmt, k string, cont string) {
 					op = "-"
 				}
 				fmt.Fprintf(t.sb, "%slet %s : Int := %s %s %s\n", ind, id.Name, id.Name, op, t.intExpr(x.Rhs[0]))
+				continue
+			}
+			if x.Tok == token.OR_ASSIGN && len(x.Lhs) == 1 && t.msm {
+				ix, ok := x.Lhs[0].(*ast.IndexExpr)
+				if !ok || t.typeOf(ix.X) != tListInt {
+					die("loops: %s: unsupported |= target", t.cur.name)
+				}
+				cur := "(Loop.get " + t.valExpr(ix.X) + " " + t.intExpr(ix.Index) + " 0)"
+				t.assign(ind, x.Lhs[0], "Loop.bor "+cur+" "+t.intExpr(x.Rhs[0]), false, tInt)
 				continue
 			}
 			if x.Tok != token.DEFINE && x.Tok != token.ASSIGN {
